@@ -1,7 +1,7 @@
 (* C05 - time-dependent operators evaluate pointwise in time.
    Property theorems only; proofs are in Proofs/C05.v, the model in Model/C05.v.
 
-   Quantifiers.  Every theorem below that starts with `forall (A : Alg) (T : Type)`
+   Quantifiers.  Every theorem below that starts with `forall (A : Alg) (T : TimeS A)`
    holds for every commutative ring with involution C, every C-module M with an
    associative bilinear product, unit, trace and the three maps trans/conj/dag
    (any matrix size, in particular), every type of times, every element /
@@ -16,7 +16,7 @@ From QV Require Import Model.C05 Proofs.C05.
 
 (* ---- evaluation is the sum of the terms; __call__ and _call agree *)
 Theorem C05_call_is_sum_of_terms :
-  forall (A : Alg) (T : Type) (es : list (@elem A T)) t,
+  forall (A : Alg) (T : TimeS A) (es : list (@elem A T)) t,
     qe_call A T es t = esum A (map (fun e => value A T e t) es) /\
     qe__call A T es t = qe_call A T es t.
 Proof. intros. split; [apply qe_call_V | rewrite qe_call_V; apply qe__call_V]. Qed.
@@ -25,26 +25,26 @@ Print Assumptions C05_call_is_sum_of_terms.
 (* ---- term algebra (_element.pyx) *)
 (* left @ right, all 25 kind combinations *)
 Theorem C05_term_matmul_law :
-  forall (A : Alg) (T : Type) (a b : @elem A T) t,
+  forall (A : Alg) (T : TimeS A) (a b : @elem A T) t,
     value A T (matmul A T a b) t = mmul A (value A T a t) (value A T b t).
 Proof. exact matmul_value. Qed.
 Print Assumptions C05_term_matmul_law.
 
 (* linear_map(f, anti) for a map that is (anti)linear as its flag says *)
 Theorem C05_term_linear_map_law :
-  forall (A : Alg) (T : Type) f anti (e : @elem A T) t,
+  forall (A : Alg) (T : TimeS A) f anti (e : @elem A T) t,
     tr_ok A f -> tr_anti A f = anti ->
     value A T (linear_map A T f anti e) t = tr_sem A f (value A T e t).
 Proof. exact linear_map_value. Qed.
 Print Assumptions C05_term_linear_map_law.
 Example C05_nonvacuous_linear_map :
   tr_ok G2 (@TDag G2) /\ tr_anti G2 (@TDag G2) = true /\
-  value G2 Z (linear_map G2 Z (@TDag G2) true (@Func G2 Z wf_fun)) 2%Z <> z2.
+  value G2 ZT (linear_map G2 ZT (@TDag G2) true (@Func G2 ZT wf_fun None)) 2%Z <> z2.
 Proof. split; [apply tr_ok_dag|split; [reflexivity|vm_compute; discriminate]]. Qed.
 
 (* a product term stands for: its stack applied to (left value @ right value) *)
 Theorem C05_product_term_meaning :
-  forall (A : Alg) (T : Type) (l r : @elem A T) trs cj t,
+  forall (A : Alg) (T : TimeS A) (l r : @elem A T) trs cj t,
     wf A T (Prod l r trs cj) ->
     value A T (Prod l r trs cj) t =
     apply_trs A trs (mmul A (value A T l t) (value A T r t)).
@@ -56,7 +56,7 @@ Print Assumptions C05_product_term_meaning.
    flag implies a non-empty stack, which is what makes the
    `if not self._transform` shortcut of _ProdElement.matmul_data_t legal *)
 Theorem C05_conj_flag_invariant :
-  forall (A : Alg) (T : Type) (x : qx A T),
+  forall (A : Alg) (T : TimeS A) (x : qx A T),
     wfx A T x ->
     Forall (wf A T) (build A T x) /\
     (forall l r trs cj, wf A T (Prod l r trs cj) -> cj = true -> trs <> []).
@@ -65,31 +65,31 @@ Proof.
   intros l r trs cj. apply wf_prod_flag.
 Qed.
 Print Assumptions C05_conj_flag_invariant.
-Example C05_nonvacuous_flag : wf G2 Z w_elem /\ exists l r trs, w_elem = Prod l r trs true.
+Example C05_nonvacuous_flag : wf G2 ZT w_elem /\ exists l r trs, w_elem = Prod l r trs true.
 Proof. split; [exact w_elem_wf|]. do 3 eexists. reflexivity. Qed.
 
 (* ---- element * number *)
 Theorem C05_scale_law :
-  forall (A : Alg) (T : Type) (e : @elem A T) z t,
+  forall (A : Alg) (T : TimeS A) (e : @elem A T) z t,
     wf A T e -> value A T (scale A T z e) t = mscale A z (value A T e t).
 Proof. intros. apply scale_value. assumption. Qed.
 Print Assumptions C05_scale_law.
 Example C05_nonvacuous_scale :
-  wf G2 Z w_elem /\ (exists l r trs, w_elem = Prod l r trs true) /\ gconj wi <> wi.
+  wf G2 ZT w_elem /\ (exists l r trs, w_elem = Prod l r trs true) /\ gconj wi <> wi.
 Proof.
   split; [exact w_elem_wf|]. split; [do 3 eexists; reflexivity|discriminate].
 Qed.
 (* the rule before 7dc9384 pushed the scalar inside an antilinear stack:
    ((f @ B).dag() * 1j)(2) was -1j * (f @ B).dag()(2); the current rule is right there *)
 Example C05_old_scale_rule_witness :
-  wf G2 Z w_elem /\
-  value G2 Z (old_scale G2 Z wi w_elem) 2%Z <> mscale G2 wi (value G2 Z w_elem 2%Z) /\
-  value G2 Z (scale G2 Z wi w_elem) 2%Z = mscale G2 wi (value G2 Z w_elem 2%Z).
+  wf G2 ZT w_elem /\
+  value G2 ZT (old_scale G2 ZT wi w_elem) 2%Z <> mscale G2 wi (value G2 ZT w_elem 2%Z) /\
+  value G2 ZT (scale G2 ZT wi w_elem) 2%Z = mscale G2 wi (value G2 ZT w_elem 2%Z).
 Proof. split; [exact w_elem_wf|exact w_elem_old_rule]. Qed.
 
 (* ---- QobjEvo algebra on lists of terms *)
 Theorem C05_sum_law :
-  forall (A : Alg) (T : Type) (a b : list (@elem A T)) q z t,
+  forall (A : Alg) (T : TimeS A) (a b : list (@elem A T)) q z t,
     qe_call A T (qe_iadd A T a b) t = madd A (qe_call A T a t) (qe_call A T b t) /\
     qe_call A T (qe_iadd_qobj A T a q) t = madd A (qe_call A T a t) q /\
     qe_call A T (qe_iadd_num A T a z) t = madd A (qe_call A T a t) (mscale A z (mI A)).
@@ -99,7 +99,7 @@ Qed.
 Print Assumptions C05_sum_law.
 
 Theorem C05_product_law :
-  forall (A : Alg) (T : Type) (a b : list (@elem A T)) q t,
+  forall (A : Alg) (T : TimeS A) (a b : list (@elem A T)) q t,
     qe_call A T (qe_imatmul A T a b) t = mmul A (qe_call A T a t) (qe_call A T b t) /\
     qe_call A T (qe_imatmul_qobj A T a q) t = mmul A (qe_call A T a t) q /\
     qe_call A T (qe_rmatmul_qobj A T q a) t = mmul A q (qe_call A T a t).
@@ -110,13 +110,13 @@ Qed.
 Print Assumptions C05_product_law.
 
 Theorem C05_coefficient_multiple_law :
-  forall (A : Alg) (T : Type) (a : list (@elem A T)) c t,
+  forall (A : Alg) (T : TimeS A) (a : list (@elem A T)) c t,
     qe_call A T (qe_imul_coef A T a c) t = mscale A (ceval A T c t) (qe_call A T a t).
 Proof. intros. rewrite !qe_call_V. apply V_imul_coef. Qed.
 Print Assumptions C05_coefficient_multiple_law.
 
 Theorem C05_dag_conj_trans_law :
-  forall (A : Alg) (T : Type) (a : list (@elem A T)) t,
+  forall (A : Alg) (T : TimeS A) (a : list (@elem A T)) t,
     qe_call A T (qe_dag A T a) t = mdag A (qe_call A T a t) /\
     qe_call A T (qe_conj A T a) t = mconj A (qe_call A T a t) /\
     qe_call A T (qe_trans A T a) t = mtrans A (qe_call A T a t).
@@ -129,7 +129,7 @@ Print Assumptions C05_dag_conj_trans_law.
 
 (* QobjEvo.linear_map(f) / .to(..) for any additive homogeneous f *)
 Theorem C05_linear_map_law :
-  forall (A : Alg) (T : Type) f (a : list (@elem A T)) t,
+  forall (A : Alg) (T : TimeS A) f (a : list (@elem A T)) t,
     tr_ok A f -> tr_anti A f = false ->
     qe_call A T (qe_linear_map A T f false a) t = tr_sem A f (qe_call A T a t).
 Proof. intros. rewrite !qe_call_V. apply V_linear_map; assumption. Qed.
@@ -139,35 +139,147 @@ Proof. split; [apply tr_ok_lmul|reflexivity]. Qed.
 
 (* compress(): constant terms summed, pairs with equal operator merged *)
 Theorem C05_compress_preserves_value :
-  forall (A : Alg) (T : Type) (es : list (@elem A T)) t,
-    qe_call A T (compress A T es) t = qe_call A T es t.
-Proof. intros. rewrite !qe_call_V. apply V_compress. Qed.
+  forall (A : Alg) (T : TimeS A) (es : list (@elem A T)) t,
+    Forall (wf A T) es -> qe_call A T (compress A T es) t = qe_call A T es t.
+Proof. intros. rewrite !qe_call_V. apply V_compress. assumption. Qed.
+Example C05_nonvacuous_compress :
+  Forall (wf G2 ZT) [@Evo G2 ZT wB (CInter w_l); @Evo G2 ZT wB (CInter w_l); @Evo G2 ZT wB (CInter w_r)] /\
+  map (kind_of G2 ZT) (compress G2 ZT [@Evo G2 ZT wB (CInter w_l); @Evo G2 ZT wB (CInter w_l); @Evo G2 ZT wB (CInter w_r)])
+  = [KEvo CKSum].
+Proof.
+  split; [|vm_compute; reflexivity].
+  destruct w_inter_ok as [Hl Hr]. repeat constructor; assumption.
+Qed.
 Print Assumptions C05_compress_preserves_value.
+
+(* ---- coefficient algebra with sampled coefficients (add_inter) *)
+(* Coefficient.__add__ evaluates to the sum of its operands whichever branch
+   add_inter takes (fused InterCoefficient or SumCoefficient) *)
+Theorem C05_coefficient_add_pointwise :
+  forall (A : Alg) (T : TimeS A) (a b : @coef A T) t,
+    coef_ok A T a -> coef_ok A T b ->
+    ceval A T (coef_add A T a b) t = cadd A (ceval A T a t) (ceval A T b t) /\
+    coef_ok A T (coef_add A T a b).
+Proof. intros. split; [apply coef_add_eval|apply coef_add_ok]; assumption. Qed.
+Print Assumptions C05_coefficient_add_pointwise.
+Example C05_nonvacuous_coefficient_add :
+  coef_ok G2 ZT (CInter w_l) /\ coef_ok G2 ZT (CInter w_r) /\
+  ckind_of G2 ZT (coef_add G2 ZT (CInter w_l) (CInter w_l)) = CKInter /\
+  ckind_of G2 ZT (coef_add G2 ZT (CInter w_l) (CInter w_r)) = CKSum.
+Proof.
+  destruct w_inter_ok as [Hl Hr]. split; [exact Hl|split; [exact Hr|]].
+  split; [exact w_fuse_same_grid|exact (proj2 w_new_guard_rejects)].
+Qed.
+
+(* the guard of add_inter (shape, np.allclose(rtol=1e-15, atol=0), order)
+   lets two coefficients be fused only when their grids are equal (on
+   separated times) and their orders agree; a fused coefficient is then the
+   pointwise sum *)
+Theorem C05_add_inter_fuses_only_equal_grids :
+  forall (A : Alg) (T : TimeS A) (l r : @inter A T) t,
+    inter_ok A T l -> inter_ok A T r ->
+    fuse_guard_with A T (tclose A T) l r = true ->
+    igrid l = igrid r /\ length (ipoly l) = length (ipoly r) /\
+    ieval A T (fuse A T l r) t = cadd A (ieval A T l t) (ieval A T r t).
+Proof.
+  intros A T l r t Hl Hr G. destruct (guard_grid A T l r Hl Hr G) as [Hg HL].
+  split; [exact Hg|split; [exact HL|]]. apply ieval_fuse; assumption.
+Qed.
+Print Assumptions C05_add_inter_fuses_only_equal_grids.
+Example C05_nonvacuous_add_inter :
+  inter_ok G2 ZT w_l /\ fuse_guard_with G2 ZT (tclose G2 ZT) w_l w_l = true.
+Proof. split; [exact (proj1 w_inter_ok)|vm_compute; reflexivity]. Qed.
+
+(* on integer ticks the repaired test |a-b| <= 1e-15 |b| does not depend on the
+   unit of time, and is equality below 1e15 ticks *)
+Theorem C05_add_inter_guard_scale_free :
+  forall k a b, (0 < k)%Z ->
+    zclose_new (k * a) (k * b) = zclose_new a b /\
+    (zsep a -> zsep b -> zclose_new a b = true -> a = b).
+Proof. intros k a b Hk. split; [apply zclose_new_scale_free; exact Hk|apply zclose_new_sep]. Qed.
+Print Assumptions C05_add_inter_guard_scale_free.
+
+(* the guard before commit f4e3df4 (atol = 1e-15 s, here 2^53/1e15 ticks of
+   2^-53 s) fused the grids arange(5)*2^-33 s and the same stretched by
+   1 + 2^-20, and the fused coefficient is not the sum of the two *)
+Theorem C05_old_add_inter_guard_refuted :
+  exists (l r : @inter G2 ZT) t,
+    inter_ok G2 ZT l /\ inter_ok G2 ZT r /\
+    fuse_guard_with G2 ZT (zclose_old w_an ten15) l r = true /\
+    ceval G2 ZT (coef_add_with G2 ZT (zclose_old w_an ten15) (CInter l) (CInter r)) t
+      <> gadd (ieval G2 ZT l t) (ieval G2 ZT r t) /\
+    fuse_guard_with G2 ZT (tclose G2 ZT) l r = false.
+Proof.
+  exists w_l, w_r, 2097153%Z. destruct w_inter_ok as [Hl Hr].
+  split; [exact Hl|split; [exact Hr|]].
+  split; [exact (proj1 w_old_guard_not_pointwise)|].
+  split; [exact (proj2 w_old_guard_not_pointwise)|exact (proj1 w_new_guard_rejects)].
+Qed.
+Print Assumptions C05_old_add_inter_guard_refuted.
+
+(* ---- arguments() / replace_arguments *)
+(* a coefficient with replaced arguments evaluates as the old one under the
+   overriding dictionary; replacing twice is replacing with the merged dictionary *)
+Theorem C05_coefficient_replace_arguments :
+  forall (A : Alg) (T : TimeS A) (c : @coef A T) m n t,
+    ceval A T (creplace A T n c) t = ceval_ov A T n c t /\
+    creplace A T m (creplace A T n c) = creplace A T (amerge A T n m) c.
+Proof. intros. split; [apply ceval_creplace|apply creplace_creplace]. Qed.
+Print Assumptions C05_coefficient_replace_arguments.
+
+(* replace_arguments commutes with every construction of the term algebra *)
+Theorem C05_replace_arguments_commutes :
+  forall (A : Alg) (T : TimeS A) n (a b : @elem A T) z f anti (es : list (@elem A T)),
+    ereplace A T n (scale A T z a) = scale A T z (ereplace A T n a) /\
+    ereplace A T n (matmul A T a b) = matmul A T (ereplace A T n a) (ereplace A T n b) /\
+    ereplace A T n (linear_map A T f anti a) = linear_map A T f anti (ereplace A T n a) /\
+    qe_arguments A T n (compress A T es) = compress A T (qe_arguments A T n es) /\
+    (forall m, ereplace A T m (ereplace A T n a) = ereplace A T (amerge A T n m) a) /\
+    (wf A T a -> wf A T (ereplace A T n a)).
+Proof.
+  intros. split; [apply ereplace_scale|]. split; [apply ereplace_matmul|].
+  split; [apply ereplace_linear_map|]. split; [apply compress_rep|].
+  split; [intros m; apply ereplace_ereplace|apply wf_ereplace].
+Qed.
+Print Assumptions C05_replace_arguments_commutes.
+
+(* the tree theorem under any overriding dictionary: QobjEvo.arguments(n) on
+   the object built from a tree evaluates to the tree's meaning with every
+   leaf's args replaced by {**args, **n}; None is C05_pointwise *)
+Theorem C05_pointwise_arguments :
+  forall (A : Alg) (T : TimeS A) (x : qx A T) ov t,
+    wfx A T x -> qe_call A T (rep A T ov (build A T x)) t = semo A T ov x t.
+Proof. intros. rewrite qe_call_V. apply pointwise_ov. assumption. Qed.
+Print Assumptions C05_pointwise_arguments.
+Example C05_nonvacuous_arguments :
+  wfx G2 ZT w_tree3 /\
+  sem G2 ZT w_tree3 2%Z <> sem G2 ZT (@XArgs G2 ZT w_tree3 (Some 7%Z)) 2%Z.
+Proof. split; [exact w_tree3_wfx|exact w_tree3_depends_on_args]. Qed.
 
 (* ---- expression trees: the property itself, every tree, unconditionally *)
 Theorem C05_pointwise :
-  forall (A : Alg) (T : Type) (x : qx A T) t,
+  forall (A : Alg) (T : TimeS A) (x : qx A T) t,
     wfx A T x -> qe_call A T (build A T x) t = sem A T x t.
 Proof. intros. rewrite qe_call_V. apply pointwise. assumption. Qed.
 Print Assumptions C05_pointwise.
-Example C05_nonvacuous_pointwise : wfx G2 Z w_tree /\ wfx G2 Z w_tree2.
+Example C05_nonvacuous_pointwise : wfx G2 ZT w_tree /\ wfx G2 ZT w_tree2.
 Proof. split; [exact w_tree_wfx|exact w_tree2_wfx]. Qed.
 Example C05_old_pointwise_witness :
-  wfx G2 Z w_tree /\
-  qe_call G2 Z (old_build G2 Z w_tree) 2%Z <> sem G2 Z w_tree 2%Z /\
-  qe_call G2 Z (build G2 Z w_tree) 2%Z = sem G2 Z w_tree 2%Z.
+  wfx G2 ZT w_tree /\
+  qe_call G2 ZT (old_build G2 ZT w_tree) 2%Z <> sem G2 ZT w_tree 2%Z /\
+  qe_call G2 ZT (build G2 ZT w_tree) 2%Z = sem G2 ZT w_tree 2%Z.
 Proof. split; [exact w_tree_wfx|exact w_tree_old_rule]. Qed.
 
 (* ---- applying to a state: matmul_data(t, s) = value(t) @ s, never raises *)
 Theorem C05_matmul_data_law :
-  forall (A : Alg) (T : Type) (es : list (@elem A T)) t s,
+  forall (A : Alg) (T : TimeS A) (es : list (@elem A T)) t s,
     Forall (wf A T) es ->
     qe_matmul_data A T es t s = Some (mmul A (qe_call A T es t) s).
 Proof. intros. rewrite qe_call_V. apply qe_matmul_data_V; assumption. Qed.
 Print Assumptions C05_matmul_data_law.
 
 Theorem C05_matmul_data_of_tree :
-  forall (A : Alg) (T : Type) (x : qx A T) t s,
+  forall (A : Alg) (T : TimeS A) (x : qx A T) t s,
     wfx A T x -> qe_matmul_data A T (build A T x) t s = Some (mmul A (sem A T x t) s).
 Proof.
   intros A T x t s Hx. rewrite qe_matmul_data_V by (apply wf_build_cur; exact Hx).
@@ -176,26 +288,26 @@ Qed.
 Print Assumptions C05_matmul_data_of_tree.
 (* before c657c42, (g @ (f @ B).dag()) applied to a state raised although its value was defined *)
 Example C05_old_matmul_data_witness :
-  wfx G2 Z w_tree2 /\
-  old_qe_matmul_data G2 Z (build G2 Z w_tree2) 2%Z wS = None /\
-  qe_matmul_data G2 Z (build G2 Z w_tree2) 2%Z wS = Some (mul2 (sem G2 Z w_tree2 2%Z) wS).
+  wfx G2 ZT w_tree2 /\
+  old_qe_matmul_data G2 ZT (build G2 ZT w_tree2) 2%Z wS = None /\
+  qe_matmul_data G2 ZT (build G2 ZT w_tree2) 2%Z wS = Some (mul2 (sem G2 ZT w_tree2 2%Z) wS).
 Proof. split; [exact w_tree2_wfx|exact w_tree2_old_rule]. Qed.
 
 (* expect_data(t, state) = tr(value(t) @ state) *)
 Theorem C05_expect_law :
-  forall (A : Alg) (T : Type) (es : list (@elem A T)) t s,
+  forall (A : Alg) (T : TimeS A) (es : list (@elem A T)) t s,
     qe_expect A T es t s = mtr A (mmul A (qe_call A T es t) s).
 Proof. intros. rewrite qe_call_V. apply qe_expect_V. Qed.
 Print Assumptions C05_expect_law.
 
 (* ---- _FuncElement._previous: the memo never changes what qobj(t) returns *)
 Theorem C05_func_memo_transparent :
-  forall (A : Alg) (T : Type) teqb (f : T -> M A) prev t,
+  forall (A : Alg) (T : TimeS A) teqb (f : T -> M A) prev t,
     (forall a b, teqb a b = true -> a = b) -> memo_ok A T f prev ->
     fst (func_qobj A T teqb f prev t) = f t /\
     memo_ok A T f (snd (func_qobj A T teqb f prev t)).
 Proof. intros. apply func_memo; assumption. Qed.
 Print Assumptions C05_func_memo_transparent.
 Example C05_nonvacuous_memo :
-  memo_ok G2 Z wf_fun (Some (2%Z, wf_fun 2%Z)) /\ (forall a b, Z.eqb a b = true -> a = b).
+  memo_ok G2 ZT (wf_fun None) (Some (2%Z, wf_fun None 2%Z)) /\ (forall a b, Z.eqb a b = true -> a = b).
 Proof. split; [reflexivity|intros a b H; apply Z.eqb_eq; exact H]. Qed.
